@@ -14,7 +14,7 @@ def one(diff):
     confirmed = r.get('applies') and r.get('baseline_ok') and r.get('demo_pristine_rc') == 0 and r.get('demo_patched_rc') not in (0, None)
     caught = {q: (c['rc'] != 0) for q, c in r['checks'].items()}
     kinds = {q: sorted(set(v.get('kind') for v in c['violations'])) for q, c in r['checks'].items()}
-    d = '/verif/seeded/%s-m%s' % (prop, i)
+    d = '/verif/seeded/%s-%s%s' % (prop, os.environ.get('SEED_PREFIX', 'm'), i)
     if confirmed:
         os.makedirs(d, exist_ok=True)
         shutil.copy(diff, os.path.join(d, 'patch.diff'))
